@@ -21,6 +21,10 @@ Configs == <<
   [prefix |-> <<>>,              suffix |-> <<"s">>,      stops |-> << <<"a","b","a","c">> >>, alpha |-> {"a","b","c","s"}],
   (* a stop sequence that ends with the suffix, with and without a prefix *)
   [prefix |-> <<>>,              suffix |-> <<"q">>,      stops |-> << <<"u","q">> >>,        alpha |-> {"q","u","x"}],
-  [prefix |-> <<"a","q">>,       suffix |-> <<"q">>,      stops |-> << <<"u","q">> >>,        alpha |-> {"a","q","u"}]
+  [prefix |-> <<"a","q">>,       suffix |-> <<"q">>,      stops |-> << <<"u","q">> >>,        alpha |-> {"a","q","u"}],
+  (* white space is text like any other: blank / newline tokens at the start, with and without patterns *)
+  [prefix |-> <<>>,              suffix |-> <<>>,         stops |-> <<>>,                     alpha |-> {" ","\n","x"}],
+  [prefix |-> <<>>,              suffix |-> <<"q">>,      stops |-> << <<"\n","q">> >>,       alpha |-> {" ","\n","q"}],
+  [prefix |-> <<" ","q">>,       suffix |-> <<>>,         stops |-> <<>>,                     alpha |-> {" ","q","x"}]
 >>
 =============================================================================
